@@ -173,7 +173,7 @@ def r_respawn_guard(e, R):
                 return "NR"
             if o & a.processes:
                 return "P"
-        if isinstance(x, ast.Attribute) and x.attr == "_max_workers":
+        if isinstance(x, ast.Attribute) and x.attr == e.anchors.max_workers_attr:
             return "M"
         if isinstance(x, ast.Call) and _is_weakref_deref(e, f, x):
             return "E"
@@ -293,7 +293,7 @@ def r_spawn_site(e, R):
             if isinstance(it, ast.Call) and isinstance(it.func, ast.Name) and it.func.id == "range" and len(it.args) == 1 \
                     and isinstance(it.args[0], ast.BinOp) and isinstance(it.args[0].op, ast.Sub):
                 l_, r_ = it.args[0].left, it.args[0].right
-                okf = isinstance(l_, ast.Attribute) and l_.attr == "_max_workers" and isinstance(r_, ast.Call) and isinstance(r_.func, ast.Name) \
+                okf = isinstance(l_, ast.Attribute) and l_.attr == e.anchors.max_workers_attr and isinstance(r_, ast.Call) and isinstance(r_.func, ast.Name) \
                     and r_.func.id == "len" and bool(e.objs(sf, r_.args[0]) & a.processes)
                 if okf:
                     wl = fl
@@ -306,7 +306,7 @@ def r_spawn_site(e, R):
                 if isinstance(op, ast.Gt):
                     l, r, op = r, l, ast.Lt()
                 lenp = isinstance(l, ast.Call) and isinstance(l.func, ast.Name) and l.func.id == "len" and e.objs(sf, l.args[0]) & a.processes
-                maxw = isinstance(r, ast.Attribute) and r.attr == "_max_workers" and set(e.pt.ev(sf, r.value)) & a.executor_objs
+                maxw = isinstance(r, ast.Attribute) and r.attr == e.anchors.max_workers_attr and set(e.pt.ev(sf, r.value)) & a.executor_objs
                 ok = bool(lenp and maxw and isinstance(op, ast.Lt))
         R.check(ok, "R-SPAWN-SITE", f"{sf.short}: spawn loop guarded by len(table) < max_workers (strict)", sf.short,
                 (f"while {norm(wl.test)}" if isinstance(wl, ast.While) else f"for ... in {norm(wl.iter)}") if wl is not None else norm(n),
@@ -383,7 +383,7 @@ def r_spawn_site(e, R):
                 def classify(x):
                     if isinstance(x, ast.Call) and isinstance(x.func, ast.Name) and x.func.id == "len" and e.objs(hf, x.args[0]) & a.processes:
                         return "P"
-                    if isinstance(x, ast.Attribute) and x.attr == "_max_workers":
+                    if isinstance(x, ast.Attribute) and x.attr == e.anchors.max_workers_attr:
                         return "M"
                     return None
                 try:
